@@ -96,7 +96,7 @@ def run(chk, replay=None):
     # ---------------------------------------------------------------- gridded tests
     start, end = datetime.datetime(2010, 1, 1), datetime.datetime(2011, 1, 1)
 
-    def gridded_world(nc, nb, perm=None, seed=0):
+    def gridded_world(nc, nb, perm=None, seed=0, via_file=False):
         r = random.Random(seed)
         org = [[float(i % 4), float(i // 4)] for i in range(nc)]
         data = [[10 ** r.uniform(-3, 0.5) for _ in range(nb)] for _ in range(nc)]
@@ -106,6 +106,16 @@ def run(chk, replay=None):
         mags = numpy.array([4.0 + b for b in range(nb)])
 
         def fc(d, name):
+            if via_file:
+                # the same re-ordering expressed as a forecast file whose cells are listed in the permuted order
+                path = os.path.join(chk.tmp, 'perm_%s.dat' % name)
+                with open(path, 'w') as fh:
+                    for i in perm:
+                        for b in range(nb):
+                            fh.write('%r %r %r %r 0.0 30.0 %r %r %r 1\n' % (org[i][0], org[i][0] + 1.0, org[i][1], org[i][1] + 1.0,
+                                                                             4.0 + b, 5.0 + b, d[i][b]))
+                f = GriddedForecast.load_ascii(path, start_date=start, end_date=end, name=name)
+                return f
             region = CartesianGrid2D.from_origins(numpy.array([org[i] for i in perm]), dh=1.0)
             f = GriddedForecast(region=region, magnitudes=mags, data=numpy.array([d[i] for i in perm], dtype=float), name=name)
             f.start_time, f.end_time = start, end
@@ -147,7 +157,7 @@ def run(chk, replay=None):
         p_cell = list(range(nc))
         while p_cell == list(range(nc)):
             rng.shuffle(p_cell)
-        _, fa_p, fb_p, _ = gridded_world(nc, nb, perm=p_cell, seed=chk.seed * 100 + t)
+        _, fa_p, fb_p, _ = gridded_world(nc, nb, perm=p_cell, seed=chk.seed * 100 + t, via_file=(t % 2 == 1))
         for name, fn, analytic, simfree in GT:
             base = guarded_timeout(30, fn, fa, fb, gridded_catalog(org, events, ident, fa.region, mags))
             perm_ev = guarded_timeout(30, fn, fa, fb, gridded_catalog(org, events, p_ev, fa.region, mags))
@@ -155,7 +165,7 @@ def run(chk, replay=None):
             chk.count(3)
             # bit-for-bit identity is required of the simulation-based tests (those taking a seed); the analytic ones to rounding
             add('events', name, base, perm_ev, not analytic, True, True, {'id': t, 'shape': [nc, nb], 'events': events[:8], 'perm': p_ev[:12]})
-            add('cells', name, base, perm_cell, False, analytic, False, {'id': t, 'shape': [nc, nb], 'events': events[:8], 'perm': p_cell})
+            add('cells', name, base, perm_cell, False, analytic, False, {'id': t, 'shape': [nc, nb], 'events': events[:8], 'perm': p_cell, 'via_file': t % 2 == 1})
 
     # ---------------------------------------------------------------- gridded tests on quadtree regions (cells re-ordered)
     import mercantile
